@@ -220,7 +220,7 @@ Proof.
     intros k n Hk. destruct k as [|x k]; [exact Hk|].
     rewrite look_cons in *. cbn [fs_nodes]. rewrite add_dirs_assoc, Hk. reflexivity.
   - (* makedirs_exists *)
-    intros p m w n Hl. unfold fs_makedirs. rewrite Hl. reflexivity.
+    intros p m w n Hl. unfold fs_makedirs. rewrite Hl. eexists. split; reflexivity.
   - (* unlink_ok *)
     intros p w w'. unfold fs_unlink.
     destruct (existsb (is_file_at w) (proper_prefixes (fs_key p))) eqn:Epre; [intros Heq; discriminate|].
@@ -235,7 +235,7 @@ Proof.
     { rewrite look_cons. cbn [fs_nodes w']. apply assoc_remove_same. }
     split; [exact Hgone|]. split; [exact Hframe|].
     cbv zeta. rewrite Hgone.
-    replace (existsb (is_file_at w') (proper_prefixes (x :: k))) with false; [reflexivity|].
+    replace (existsb (is_file_at w') (proper_prefixes (x :: k))) with false; [eexists; split; reflexivity|].
     rewrite <- Epre. apply existsb_ext_in'.
     intros a Ha. symmetry. apply is_file_at_nodes, Hframe, proper_prefix_neq. exact Ha.
   - (* unlink_err *)
@@ -243,13 +243,12 @@ Proof.
     destruct (existsb (is_file_at w) (proper_prefixes (fs_key p))); [intros Heq; injection Heq as <- _; reflexivity|].
     destruct (fs_look (fs_key p) w) as [[|c]|]; intros Heq; try discriminate; injection Heq as <- _; reflexivity.
   - (* unlink_enoent *)
-    intros p w w'. unfold fs_unlink. destruct errno_distinct as [E1 E2].
+    intros p w w' e. unfold fs_unlink. destruct errno_distinct as [E1 E2].
     destruct (existsb (is_file_at w) (proper_prefixes (fs_key p))).
-    { intros Heq. assert (Hz : errno_ENOTDIR = errno_ENOENT) by congruence.
-      apply Z.eqb_eq in Hz. congruence. }
-    destruct (fs_look (fs_key p) w) as [[|c]|]; intros Heq.
-    + assert (Hz : errno_EISDIR = errno_ENOENT) by congruence.
-      apply Z.eqb_eq in Hz. congruence.
+    { intros Heq He. injection Heq as _ <-. cbn [os_errno std_oserror] in He.
+      apply Z.eqb_eq in He. congruence. }
+    destruct (fs_look (fs_key p) w) as [[|c]|]; intros Heq He.
+    + injection Heq as _ <-. cbn [os_errno std_oserror] in He. apply Z.eqb_eq in He. congruence.
     + discriminate Heq.
     + reflexivity.
   - (* mkstemp_ok *)
@@ -341,10 +340,10 @@ Proof. eexists. eexists. repeat split; vm_compute; reflexivity. Qed.
 
 (* a regular file at the path: EEXIST is re-raised *)
 Example ex_ensure_tree_file :
-  snd (ensure_tree fs_runtime (lit "a/f") default_mode ex_world) = OErr errno_EEXIST /\
+  snd (ensure_tree fs_runtime (lit "a/f") default_mode ex_world) = OErr (mk_oserror (lit "FileExistsError") errno_EEXIST) /\
   snd (ensure_tree fs_runtime (lit "a") default_mode ex_world) = OOk tt /\
   snd (ensure_tree fs_runtime (lit "a/x/y") default_mode ex_world) = OOk tt /\
-  snd (ensure_tree fs_runtime (lit "a/f/y") default_mode ex_world) = OErr errno_ENOTDIR.
+  snd (ensure_tree fs_runtime (lit "a/f/y") default_mode ex_world) = OErr (mk_oserror (lit "NotADirectoryError") errno_ENOTDIR).
 Proof. repeat split; vm_compute; reflexivity. Qed.
 
 (* the default algorithm of the source is one hashlib.new accepts and whose hexdigest()
@@ -353,15 +352,17 @@ Theorem default_algorithm_usable :
   str_mem default_algorithm hash_algorithms = true /\ str_mem default_algorithm hash_xof = false.
 Proof. split; vm_compute; reflexivity. Qed.
 
-(* fault injection, for EVERY errno: instances of the two filter theorems *)
-Example ex_inject_every_errno : forall (e : Z) (p : bytes),
-  snd (ensure_tree (script_rt (OErr e) true) p default_mode tt)
-    = (if e =? errno_EEXIST then OOk tt else OErr e) /\
-  snd (ensure_tree (script_rt (OErr e) false) p default_mode tt) = OErr e /\
-  snd (delete_if_exists p (rt_unlink (script_rt (OErr e) false)) tt)
-    = (if e =? errno_ENOENT then OOk tt else OErr e).
+(* fault injection, for EVERY class name and EVERY errno: instances of the two filter theorems
+   (e.g. a user-defined OSError subclass carrying ENOENT is swallowed by delete_if_exists, a
+   FileNotFoundError whose errno was changed to something else is re-raised) *)
+Example ex_inject_every_class_and_errno : forall (cls : bytes) (e : Z) (p : bytes),
+  snd (ensure_tree (script_rt (OErr (mk_oserror cls e)) true) p default_mode tt)
+    = (if e =? errno_EEXIST then OOk tt else OErr (mk_oserror cls e)) /\
+  snd (ensure_tree (script_rt (OErr (mk_oserror cls e)) false) p default_mode tt) = OErr (mk_oserror cls e) /\
+  snd (delete_if_exists p (rt_unlink (script_rt (OErr (mk_oserror cls e)) false)) tt)
+    = (if e =? errno_ENOENT then OOk tt else OErr (mk_oserror cls e)).
 Proof.
-  intros e p. unfold ensure_tree, delete_if_exists, script_rt. cbn [rt_makedirs rt_isdir rt_unlink snd].
+  intros cls e p. unfold ensure_tree, delete_if_exists, script_rt. cbn [rt_makedirs rt_isdir rt_unlink snd os_errno].
   rewrite andb_true_r, andb_false_r.
   destruct (e =? errno_EEXIST); destruct (e =? errno_ENOENT); repeat split; reflexivity.
 Qed.
